@@ -65,3 +65,12 @@ void* __wrap_calloc(size_t a, size_t b) { return should_fail() ? NULL : __real_c
 void* __wrap_realloc(void* p, size_t n) { return should_fail() ? NULL : __real_realloc(p, n); }
 char* __wrap_strdup(const char* s) { return should_fail() ? NULL : __real_strdup(s); }
 char* __wrap_strndup(const char* s, size_t n) { return should_fail() ? NULL : __real_strndup(s, n); }
+
+/* the first backtrace() of a process loads libgcc_s (one-time heap allocations): do it before any heap baseline is taken */
+__attribute__((constructor)) static void yv_warm_unwinder(void)
+{
+  void* frames[4];
+  int n = backtrace(frames, 4);
+  char** syms = backtrace_symbols(frames, n);
+  free(syms);
+}
